@@ -30,7 +30,9 @@ def sh(cmd, cwd=None, timeout=1800):
 
 def demo(wt, script):
     rc, out = sh('%s %s' % (PY, script), cwd=wt, timeout=300)
-    last = [l for l in out.strip().splitlines() if l.startswith('RESULT:')]
+    # the verdict line may be padded, or interleaved with a traceback that a daemon thread prints on stderr at exit
+    import re
+    last = re.findall(r'RESULT: (?:PROPERTY-HOLDS|PROPERTY-VIOLATED)', out)
     return (last[-1] if last else 'NO-RESULT (rc=%d) %s' % (rc, out[-300:]))
 
 
